@@ -70,6 +70,18 @@ pub fn replay(cases: &str, verdicts: &str) {
                 let okm = match (&g, exp_ok) { (None, false) => true, (Some(r), true) => r.len() == 3 && r[0] == y[0] && r[2] == y[y.len() - 1] && (r[1] - ev).abs() <= scale * 2f64.powi(-40), _ => false };
                 v.check(okm, &format!("{} out-of-range target between in-range ones", variant), &class, &c, json!(g.as_ref().map(|r| fjs(r))));
             }
+            // the fill mode SELECTS one of its two values (ISpec: left below the range, right above it) - whatever they are: the customary
+            // non-finite fills (-inf / +inf / NaN for "missing") come back as given, the other side's value plays no part
+            if mk == "fill" && pos.contains("oob") {
+                let below = t < x[0];
+                for (lf, rf) in [(f64::NEG_INFINITY, 0.0), (0.0, f64::INFINITY), (f64::NAN, 5.0), (5.0, f64::NAN), (f64::NEG_INFINITY, f64::INFINITY), (f64::INFINITY, -0.0), (-0.0, f64::NEG_INFINITY)] {
+                    let md = ExtrapolationMode::Fill(lf, rf);
+                    let g = guard(|| if variant == "checked" { interp1d_linear(&x, &y, &[t], md).to_vec() } else { interp1d_linear_unchecked(&x, &y, &[t], md).to_vec() });
+                    let want: f64 = if below { lf } else { rf };
+                    let ok = g.as_ref().map(|r| r.len() == 1 && (r[0].to_bits() == want.to_bits() || (r[0].is_nan() && want.is_nan()))).unwrap_or(false);
+                    v.check(ok, &format!("{} non-finite fill values", variant), &class, &json!({"case": c, "left_fill": fj(lf), "right_fill": fj(rf)}), json!(g.as_ref().map(|r| fjs(r))));
+                }
+            }
             // several targets in one call: each answered independently (first knot in the middle)
             let g3 = run(&[t, x[0], t]);
             v.check(judge(&g3, 3), &format!("{} multi", variant), &class, &c, json!(g3.as_ref().map(|r| fjs(r))));
@@ -140,6 +152,17 @@ pub fn replay(cases: &str, verdicts: &str) {
             let g = guard(|| interp1d_linear(&x, ys, &[t], ExtrapolationMode::Extrapolate).to_vec());
             let g2 = guard(|| interp1d_linear_unchecked(&x, ys, &[t], ExtrapolationMode::Extrapolate).to_vec());
             v.check(g.is_none() && g2.is_none(), "both", "length-mismatch", &c, json!([g.is_none(), g2.is_none()]));
+            // ... in either direction and by any amount: more ordinates than abscissae is a mismatch too (not "ignore the surplus")
+            for extra in [1usize, 2, x.len()] {
+                let yl: Vec<f64> = y.iter().cloned().chain((0..extra).map(|k| k as f64)).collect();
+                let g = guard(|| interp1d_linear(&x, &yl, &[t], ExtrapolationMode::Extrapolate).to_vec());
+                let g2 = guard(|| interp1d_linear_unchecked(&x, &yl, &[t], ExtrapolationMode::Extrapolate).to_vec());
+                v.check(g.is_none() && g2.is_none(), "both", "length-mismatch more-ordinates", &json!({"case": c, "surplus": extra}), json!([g.is_none(), g2.is_none()]));
+                let xl: Vec<f64> = x.iter().cloned().chain((0..extra).map(|k| x[x.len() - 1] + 1.0 + k as f64)).collect();
+                let g = guard(|| interp1d_linear(&xl, &y, &[t], ExtrapolationMode::Extrapolate).to_vec());
+                let g2 = guard(|| interp1d_linear_unchecked(&xl, &y, &[t], ExtrapolationMode::Extrapolate).to_vec());
+                v.check(g.is_none() && g2.is_none(), "both", "length-mismatch more-abscissae", &json!({"case": c, "surplus": extra}), json!([g.is_none(), g2.is_none()]));
+            }
         }
     });
     v.finish();
